@@ -150,7 +150,7 @@ func genC13Mrule(w *bufio.Writer, rng *hx.Rng, tier string) {
 				for _, inv := range []bool{false, true} {
 					for _, d := range datas {
 						idx++
-						if !full && idx%6 != 0 {
+						if (!full && idx%6 != 0) || (full && idx%2 != 0) {
 							continue
 						}
 						c13MruleLine(w, false, []c20MRule{{Mode: mode, Values: vals, CI: ci, Inv: inv}}, d)
@@ -162,7 +162,7 @@ func genC13Mrule(w *bufio.Writer, rng *hx.Rng, tier string) {
 	// random rule sets (and / or, 1-3 rules, values cut from the data or from the value pool)
 	n := 4000
 	if full {
-		n = 100000
+		n = 30000
 	}
 	for i := 0; i < n; i++ {
 		data := c13CaseStrings(rng, []int{1, 3, 7, 8}[rng.Intn(4)])
